@@ -230,6 +230,9 @@ func apply(hc *hctx, h *handle, a *Action) (out outcome, lerr error) {
 		var hd common.BeaconBlockHeader
 		if lerr = hd.Deserialize(dr(a.bytes(0))); lerr == nil {
 			lerr = st.SetLatestBlockHeader(&hd)
+			// the caller keeps using its struct (the usual "fill in the state root, hash again" pattern): the
+			// state must hold a copy — leaves aliasing this memory would change under cached hashes
+			hd = common.BeaconBlockHeader{Slot: ^common.Slot(0), ProposerIndex: 0x5c5c5c5c, ParentRoot: common.Root{0: 0x5c, 31: 0x5c}, StateRoot: common.Root{1: 0x5c}, BodyRoot: common.Root{2: 0x5c}}
 		}
 	case "SetEth1Data":
 		m.set("eth1_data", dec(m.ft("eth1_data"), a.bytes(0)))
@@ -560,21 +563,25 @@ func apply(hc *hctx, h *handle, a *Action) (out outcome, lerr error) {
 			var h bellatrix.ExecutionPayloadHeader
 			if lerr = h.Deserialize(dr(a.bytes(0))); lerr == nil {
 				lerr = s.SetLatestExecutionPayloadHeader(&h)
+				h = bellatrix.ExecutionPayloadHeader{ParentHash: common.Root{0: 0x5c}, StateRoot: common.Bytes32{3: 0x5c}, BlockNumber: 0x5c5c, BlockHash: common.Root{9: 0x5c}, TransactionsRoot: common.Root{7: 0x5c}} // scribble over the caller's struct
 			}
 		case *capella.BeaconStateView:
 			var h capella.ExecutionPayloadHeader
 			if lerr = h.Deserialize(dr(a.bytes(0))); lerr == nil {
 				lerr = s.SetLatestExecutionPayloadHeader(&h)
+				h = capella.ExecutionPayloadHeader{ParentHash: common.Root{0: 0x5c}, StateRoot: common.Bytes32{3: 0x5c}, BlockNumber: 0x5c5c, BlockHash: common.Root{9: 0x5c}, TransactionsRoot: common.Root{7: 0x5c}} // scribble over the caller's struct
 			}
 		case *deneb.BeaconStateView:
 			var h deneb.ExecutionPayloadHeader
 			if lerr = h.Deserialize(dr(a.bytes(0))); lerr == nil {
 				lerr = s.SetLatestExecutionPayloadHeader(&h)
+				h = deneb.ExecutionPayloadHeader{ParentHash: common.Root{0: 0x5c}, StateRoot: common.Bytes32{3: 0x5c}, BlockNumber: 0x5c5c, BlockHash: common.Root{9: 0x5c}, TransactionsRoot: common.Root{7: 0x5c}} // scribble over the caller's struct
 			}
 		case *electra.BeaconStateView:
 			var h deneb.ExecutionPayloadHeader
 			if lerr = h.Deserialize(dr(a.bytes(0))); lerr == nil {
 				lerr = s.SetLatestExecutionPayloadHeader(&h)
+				h = deneb.ExecutionPayloadHeader{ParentHash: common.Root{0: 0x5c}, StateRoot: common.Bytes32{3: 0x5c}, BlockNumber: 0x5c5c, BlockHash: common.Root{9: 0x5c}, TransactionsRoot: common.Root{7: 0x5c}} // scribble over the caller's struct
 			}
 		default:
 			lerr = fmt.Errorf("harness: no payload header setter on %T", st)
